@@ -71,7 +71,9 @@ impl super::DebugSession {
             ],
         });
         self.send_success_body(req, body)?;
-        self.send_event("initialized")
+        // Through the queue, as any other event: nothing is sent after `terminated`.
+        self.enqueue_event(InternalEvent::Initialized);
+        self.drain_events()
     }
 
     fn build_debugger_from_process(
